@@ -67,7 +67,7 @@ class Prop:
     props_file = 'Props/C08.v'
     required_theorems = ['negotiated_is_min', 'zero_hold_disables_timers', 'zero_never_expires',
                          'hold_deadline_follows_reception', 'expiry_only_after_silence', 'expiry_when_silent',
-                         'keepalive_every_third', 'sleep0_driver_refuted', 'as_loop_drop_refuted']
+                         'keepalive_every_third', 'sleep0_driver_refuted', 'as_loop_drop_refuted', 'raw_local_hold_refuted']
     correspondence_name = ('Model/Timers.v run_case vs daemon/src/event/mod.rs PeerSession::{apply_outputs, run_select, rx_msg, '
                            'flush_tx} + ConnArbiter::process (harness/daemon/event_hx.rs verif_timer_cases)')
     rule = ('cases = (local id/AS/hold/capabilities, expected AS, role, timed event sequence: ticks, message arrivals, FIN, close requests, '
@@ -79,7 +79,7 @@ class Prop:
         'the prologue of session_loop (Connected through the arbiter, apply_outputs, Step dropped) is repeated in the harness; session_loop/run themselves (NOTIFICATION write, unregister, apply_disconnect) are not driven',
         'messages are abstracted to what fsm.rs inspects; UPDATE is End-of-RIB except the AS-loop announcement; rx_update (prefix limit Cease), the peer-event arm of run_select, write errors in flush_tx and a dropped close sender are not modelled',
     ]
-    assumptions = ['hold times are 0 or 3..65535 on both sides (OPEN parsing and the gRPC API enforce it; the config-file path does not)',
+    assumptions = ['the remote hold time is 0 or 3..65535 (OPEN parsing rejects 1 and 2 with NOTIFICATION 2/6: exercised as IParseErr); the local one is any number the configuration can hold, negotiated as advertised (16 bits, 1 and 2 as 0)',
                    'one connection task per role at a time (accept_connection rejects a second connection of the same direction)']
 
     # ---- rendering
